@@ -438,7 +438,22 @@ def _conditions(ck, p, byk):
             # filter sits between iter_allowed and collect on the only path
             ok = good
             detail += "; the filter closure returns !ignore_condition(text): %s" % good
-        ck.decide(rule, "CommentMasker::create_mask", ok, f.span, detail)
+        if not filt:
+            # other forms of the same filter: filter_map(|(span, text)| (!ignore(text)).then_some(span)), retain ..
+            fm = [(bi, t) for bi, t in f.calls() if method(t) in ("filter_map", "retain", "flat_map")]
+            good = False
+            for c in p.closures_of(f.name):
+                calls_pred = any("ptr" in t["f"] or def_of(t).endswith("ops::function::Fn::call") for _, t in c.calls())
+                neg = any(sx["k"] == "assign" and sx["rv"]["k"] == "un" and sx["rv"]["op"] == "Not" for b in c.blocks for sx in b["s"])
+                if calls_pred and neg:
+                    good = True
+            if fm and good and "iter_allowed" in ms:
+                ck.proved(rule, "CommentMasker::create_mask", f.span, "allowed regions pass a filter_map whose closure keeps a region only when !ignore_condition(text)")
+            else:
+                ck.undecided(rule, "CommentMasker::create_mask", f.span, detail + ": no filter over iter_allowed() of a recognised form")
+            return_after = True
+        else:
+            ck.decide(rule, "CommentMasker::create_mask", ok, f.span, detail)
 
 
 # ---------------------------------------------------------------------------------------------------
